@@ -1,4 +1,5 @@
 //! hcv — bounded exhaustive exploration harness for Heathcliff (see /verif/DESIGN.md).
+pub mod e2;
 pub mod engine;
 pub mod he;
 pub mod props;
